@@ -41,6 +41,7 @@ class SimulationAlgorithm3DBase
 
     int Poisson(double lambda)
         {
+        if(!(lambda>0)) return 0; // a Poisson variable of mean 0 is 0 (the distribution requires a strictly positive mean)
         return std::poisson_distribution<int>(lambda)(rng);
         }
 
